@@ -341,6 +341,10 @@ def run_case(ctx, case):
     except Fail as f:
         ctx.fail('C03:' + f.mech, case, f.detail)
         return
+    except FileNotFoundError as e:
+        # exit status 0 but a destination file was never written
+        ctx.fail('C03:destination-file-missing', case, repr(e))
+        return
     bank = case['bank']
     if case['senc'] != 'utf-8' or case['denc'] != 'utf-8':
         for e in set([case['senc'], case['denc']]) - {'utf-8'}:
